@@ -198,27 +198,32 @@ theorem C03_fault_scalar_positions (c : Cfg) (k : ScalarKind) (t : PTree) (tok :
 /-! ## document level: every admissible spelling decodes to the same message -/
 
 /-- **C03_variations**: for every `Env.flat` environment (flattened objects, exposed oneofs, proto
-oneofs, wrapper oneofs, enums, arrays / maps; no `Any`) and every representable message `m`: every
+oneofs, wrapper oneofs, enums, arrays / maps, j5 `Any` properties — for those the codec without
+`WithProtoToAny`, `hA`) and every representable message `m`: every
 document that *spells* `m` (`SpellsRoot`, `Codec/Doc.lean`, defined by recursion on the document)
 — object members in **any order**, **explicit nulls** anywhere, `"!type"` before / after / without
-the oneof member, array elements and map values in order, every scalar written in **any** form
+the oneof member, the `"!type"` and `"value"` members of an `Any` in either order (the value any
+complete JSON value whose compact rendering is the stored `j5_json`), array elements and map values
+in order, every scalar written in **any** form
 `scalarReflectFromGo` maps to the stored value (the documented alternates: `C03_scalar_alternates`
 below), enum names with or without prefix — decodes to exactly `m`. The canonical encoding is one
 of these documents, so they all produce the same message as the canonical spelling. -/
-theorem C03_variations (c : Cfg) (hs : c.env.flat = true) (root : String) (m : Fields) (t : PTree)
+theorem C03_variations (c : Cfg) (hs : c.env.flat = true)
+    (hA : c.protoToAny = false ∨ c.env.noAny = true) (root : String) (m : Fields) (t : PTree)
     (hok : valOk c.env c.O (.object root) (.msg m) = true ∨
       valOk c.env c.O (.oneof root) (.msg m) = true)
     (h : SpellsRoot c root m t) : decRootTree c root t = .ok m :=
-  spells_root_decodes c hs root m t hok h
+  spells_root_decodes c hs hA root m t hok h
 
 /-- the same for `Codec.JSONToProto` on bytes (insignificant whitespace is consumed by the JSON
 reader model `readDoc`) -/
-theorem C03_variations_bytes (c : Cfg) (hs : c.env.flat = true) (root : String) (m : Fields)
+theorem C03_variations_bytes (c : Cfg) (hs : c.env.flat = true)
+    (hA : c.protoToAny = false ∨ c.env.noAny = true) (root : String) (m : Fields)
     (bs : Bytes)
     (hok : valOk c.env c.O (.object root) (.msg m) = true ∨
       valOk c.env c.O (.oneof root) (.msg m) = true)
     (h : SpellsRoot c root m (readDoc bs)) : decodeBytes c root bs = .ok m :=
-  spells_root_decodes c hs root m (readDoc bs) hok h
+  spells_root_decodes c hs hA root m (readDoc bs) hok h
 
 /-- the documented alternate spellings of a scalar all *spell* the value (`scalarSpells` is the
 leaf case of `SpellsRoot`): quoted or bare 32- and 64-bit integers over their whole range;
@@ -383,6 +388,25 @@ of a oneof root have distinct one-element paths). -/
 theorem C03_exact_stored_flat_partial (c : Cfg) (hs : c.env.flat = true) (root : String) (t : PTree)
     (m : Fields) (h : decRootTree c root t = .ok m) : StoredRoot c root m t :=
   stored_root c (apart_of_flat c.env hs) root t m h
+
+/-- how to read `StoredRoot` (top level of an object root): every non-null member `k: v` of the
+document whose property has a proto path is stored at that path as a value `vv` the subtree `v` is
+stored as (`StoredV`: for a scalar, `scalarSpells` — exactly a value the token denotes; recursively
+for containers) -/
+theorem C03_stored_member (c : Cfg) (props : List PropDef) (fs : Fields) :
+    ∀ (ms : PMembers), StoredM c props fs ms → ∀ k v p, isMember k v ms → v ≠ .null →
+      findProp props k = some p → p.path ≠ [] →
+      ∃ vv, StoredV c p.field vv v ∧ storedAt fs p vv
+  | .nil _, _, k, v, p, hm, _, _, _ => by simp [isMember] at hm
+  | .cons k0 _ v0 rest, h, k, v, p, hm, hnn, hfp, hne => by
+    simp only [StoredM] at h
+    simp only [isMember] at hm
+    rcases hm with ⟨rfl, rfl⟩ | hm
+    · rcases h.1 with h1 | ⟨p', vv, hfp', _, hsv, hst⟩ | ⟨p', hfp', hpe, _⟩
+      · exact absurd h1 hnn
+      · rw [hfp] at hfp'; cases hfp'; exact ⟨vv, hsv, hst⟩
+      · rw [hfp] at hfp'; cases hfp'; exact absurd hpe hne
+    · exact C03_stored_member c props fs rest h.2 k v p hm hnn hfp hne
 
 /-- the same on bytes: what `Codec.JSONToProto` accepts, it stored exactly as the reader saw it -/
 theorem C03_exact_stored_bytes_partial (c : Cfg) (hE : c.env.apart) (root : String) (bs : Bytes)
@@ -590,6 +614,23 @@ example : decRootTree faultCfg "t.M"
       (.cons (ascii "sub") [] .null
         (.cons (ascii "name") [] (.str (ascii "x") []) (.nil .closed))))) =
     .ok [(1, .str (ascii "x")), (3, .msg [(2, .int 7)])] := by rfl
+
+/-- the `Any` clause of `SpellsV`: `{"value":{},"!type":"t.T"}` — value first — spells the j5 `Any`
+holding `j5_json = {}` … -/
+example (c : Cfg) : SpellsV c (.any false) (.anyJ5 (ascii "t.T") [] (ascii "{}") .none "" (.msg []))
+    (.obj (.cons (ascii "value") [] (.obj (.nil .closed))
+      (.cons (ascii "!type") [] (.str (ascii "t.T") []) (.nil .closed)))) := by
+  simp only [SpellsV]
+  exact ⟨rfl, ascii "t.T", .obj (.nil .closed), [], [], [], rfl, rfl, by decide, Or.inr rfl⟩
+/-- … and such a message is representable in a flat environment with an `Any` property (hypotheses
+of `C03_variations` for `Any`: `hok`, `hs`, `hA`) -/
+example : valOk { defs := [("t.A", .object [
+      { jsonName := ascii "p", path := [2], pres := .msg, field := .any false }])] }
+    { toyOracle with chunk := fun bs => if bs = ascii "{}" then some (.obj (.nil .closed)) else none }
+    (.object "t.A") (.msg [(2, .anyJ5 (ascii "t.T") [] (ascii "{}") .none "" (.msg []))]) = true ∧
+    Env.flat { defs := [("t.A", .object [
+      { jsonName := ascii "p", path := [2], pres := .msg, field := .any false }])] } = true := by
+  decide
 
 /-- `PathsApart` holds for the example object -/
 example : PathsApart mProps := by
